@@ -34,10 +34,6 @@ abbrev R := Except Stop Val
 /-- "an error is raised" -/
 def raise : Except Stop α := .error .panic
 
-def isNum : Val → Bool
-  | .int _ | .flt _ => true
-  | _ => false
-
 /-! ## arithmetic -/
 
 /-- `%g` text of a float (`unmodelled` for floats whose shortest text is outside `fmtG`) -/
@@ -99,7 +95,7 @@ def arith2 (dev : Dev) (op : Arith) : Val → Val → R
 /-- `dif`/`-`, `product`/`*`, `quotient`/`/`: the first argument combined with each later one in turn -/
 def arith (dev : Dev) (op : Arith) : List Val → R
   | [] => .ok (.int 0)
-  | v :: r => if isNum v then foldM' (arith2 dev op) v r else raise
+  | v :: r => if v.isNum then foldM' (arith2 dev op) v r else raise
 
 /-- `mod`: exactly two integers -/
 def mod : List Val → R
@@ -119,13 +115,9 @@ def numChain (dev : Dev) (op : CmpOp) (x : Flt) : List Val → R
     | none => raise
     | some y => if op.fHolds x y then numChain dev op y r else .ok (.bool false)
 
-def strOf : Val → Bytes
-  | .str s => s
-  | _ => []
-
 def strChain (op : CmpOp) (x : Bytes) : List Val → R
   | [] => .ok (.bool true)
-  | v :: r => if op.sHolds x (strOf v) then strChain op (strOf v) r else .ok (.bool false)
+  | v :: r => if op.sHolds x v.strOrEmpty then strChain op v.strOrEmpty r else .ok (.bool false)
 
 /-- `lt lte gt gte` on evaluated arguments -/
 def cmp (dev : Dev) (op : CmpOp) : List Val → R
@@ -287,12 +279,12 @@ def describe (dev : Dev) (f : Bytes) (vs : List Val) : M Val := fun h =>
   else if f = b!"list" then list vs h
   else if f = b!"nth" then (nth h vs, h)
   else if f = b!"size" then (size h vs, h)
-  else if f = b!"array?" then (pred (fun v => match v with | .aref _ => true | _ => false) vs, h)
-  else if f = b!"bool?" then (pred (fun v => match v with | .bool _ => true | _ => false) vs, h)
-  else if f = b!"map?" then (pred (fun v => match v with | .mref _ => true | _ => false) vs, h)
-  else if f = b!"nil?" || f = b!"null?" then (pred (fun v => v = .null) vs, h)
-  else if f = b!"num?" then (pred isNum vs, h)
-  else if f = b!"string?" then (pred (fun v => match v with | .str _ => true | _ => false) vs, h)
+  else if f = b!"array?" then (pred Val.isArr vs, h)
+  else if f = b!"bool?" then (pred Val.isBool vs, h)
+  else if f = b!"map?" then (pred Val.isMap vs, h)
+  else if f = b!"nil?" || f = b!"null?" then (pred Val.isNull vs, h)
+  else if f = b!"num?" then (pred Val.isNum vs, h)
+  else if f = b!"string?" then (pred Val.isStr vs, h)
   else (.error .unmodelled, h)
 
 /-! ## the registry as documented
